@@ -9,7 +9,6 @@ from pathlib import Path
 
 from snakeoil.klass import jit_attr
 from snakeoil.mappings import DictMixin
-from snakeoil.sequences import iflatten_instance
 
 from ..ebuild.atom import atom
 from ..operations import repo
@@ -318,11 +317,21 @@ class tree:
         # full expansion
         if not isinstance(restrict, boolean.base) or isinstance(restrict, atom):
             return self._fast_identify_candidates(restrict, sorter)
+        # Only an un-negated category/package restriction that is itself a
+        # member of a solution has to hold for every match of that solution;
+        # a negated one, or one nested in a member that stays opaque in a DNF
+        # (exactly-one-of, at-most-one-of, Negate), must not be used to prune.
+        def required(solution, attr):
+            return [
+                r.restriction
+                for r in solution
+                if isinstance(r, packages.PackageRestriction)
+                and not r.negate
+                and r.attrs == (attr,)
+            ]
+
         dsolutions = [
-            (
-                [c.restriction for c in collect_package_restrictions(x, ("category",))],
-                [p.restriction for p in collect_package_restrictions(x, ("package",))],
-            )
+            (required(x, "category"), required(x, "package"))
             for x in restrict.iter_dnf_solutions(True)
         ]
 
@@ -351,11 +360,7 @@ class tree:
                 return self.versions
             # ok. so... one doesn't specify a category, but they all
             # specify packages (or don't)
-            pr = values.OrRestriction(
-                *tuple(
-                    iflatten_instance((x[1] for x in dsolutions if x[1]), values.base)
-                )
-            )
+            pr = values.OrRestriction(*(r for x in dsolutions for r in x[1]))
             return (
                 (c, p)
                 for c in sorter(self.categories)
@@ -365,19 +370,22 @@ class tree:
 
         elif any(True for x in dsolutions[1:] if bool(x[1]) != pkg_specified):
             # one (or more) don't specify pkgs, but they all specify cats.
-            cr = values.OrRestriction(
-                *tuple(iflatten_instance((x[0] for x in dsolutions), values.base))
-            )
+            cr = values.OrRestriction(*(r for x in dsolutions for r in x[0]))
             cats_iter = (c for c in sorter(self.categories) if cr.match(c))
             return ((c, p) for c in cats_iter for p in sorter(pgetter(c, [])))
 
-        return self._fast_identify_candidates(restrict, sorter)
+        # every solution constrains the same attributes: any match satisfies
+        # one of the solutions, hence one of the restrictions they require.
+        return self._candidates_from_restrictions(
+            {r for x in dsolutions for r in x[0]},
+            {r for x in dsolutions for r in x[1]},
+            False,
+            sorter,
+        )
 
     def _fast_identify_candidates(self, restrict, sorter):
         pkg_restrict = set()
         cat_restrict = set()
-        cat_exact = set()
-        pkg_exact = set()
 
         for x in collect_package_restrictions(
             restrict,
@@ -391,13 +399,21 @@ class tree:
             elif x.attr == "package":
                 pkg_restrict.add(x.restriction)
 
+        return self._candidates_from_restrictions(
+            cat_restrict, pkg_restrict, restrict.negate, sorter
+        )
+
+    def _candidates_from_restrictions(self, cat_restrict, pkg_restrict, negate, sorter):
+        cat_exact = set()
+        pkg_exact = set()
+
         for e, s in ((pkg_exact, pkg_restrict), (cat_exact, cat_restrict)):
             l = [x for x in s if isinstance(x, values.StrExactMatch) and not x.negate]
             s.difference_update(l)
             e.update(x.exact for x in l)
         del l
 
-        if restrict.negate:
+        if negate:
             cat_exact = pkg_exact = ()
 
         if cat_exact:
@@ -414,7 +430,7 @@ class tree:
                 cat_restrict.add(values.ContainmentMatch(frozenset(cat_exact)))
                 cats_iter = sorter(self._cat_filter(cat_restrict))
         elif cat_restrict:
-            cats_iter = self._cat_filter(cat_restrict, negate=restrict.negate)
+            cats_iter = self._cat_filter(cat_restrict, negate=negate)
         else:
             cats_iter = sorter(self.categories)
 
@@ -429,7 +445,7 @@ class tree:
                 pkg_restrict.add(values.ContainmentMatch(frozenset(pkg_exact)))
 
         if pkg_restrict:
-            return self._package_filter(cats_iter, pkg_restrict, negate=restrict.negate)
+            return self._package_filter(cats_iter, pkg_restrict, negate=negate)
         elif not cat_restrict:
             if sorter is iter and not cat_exact:
                 return self.versions
